@@ -33,6 +33,8 @@ run_demo $WT; with=$?
 git -C /repo worktree remove --force $WT
 echo "confirm: demo without patch rc=$base, suite with patch rc=$suite, demo with patch rc=$with"
 det=""
+# evidence/replays written by runs against the patched tree must not replace the committed ones
+rm -rf /tmp/evbak_$ID; mkdir -p /tmp/evbak_$ID; cp -a /verif/evidence /tmp/evbak_$ID/evidence; [ -d /verif/replays ] && cp -a /verif/replays /tmp/evbak_$ID/replays
 git -C /repo apply $OUT/patch.diff || { echo "cannot apply to /repo"; exit 3; }
 for p in $PROPS; do
   (cd /verif && timeout 1800 ${VCHECK:-bin/vcheck} -p $p -tier quick > /tmp/check_${ID}_$p.out 2>&1); rc=$?
@@ -41,6 +43,7 @@ for p in $PROPS; do
   grep -E '^(VIOLATION|  (conv|kernel)|SPURIOUS|UNCONFIRMED|TOOL-ERROR)' /tmp/check_${ID}_$p.out | head -6
 done
 git -C /repo checkout -- .
+rm -rf /verif/evidence /verif/replays; cp -a /tmp/evbak_$ID/evidence /verif/evidence; [ -d /tmp/evbak_$ID/replays ] && cp -a /tmp/evbak_$ID/replays /verif/replays; rm -rf /tmp/evbak_$ID
 echo "detection:$det"
 cat > $OUT/result.txt <<EOT
 demo_without_patch_rc=$base
